@@ -74,13 +74,17 @@ func OnceMemo(fn value.Value) *NativeClosure {
 
 func OnceFn(fn value.Value) *NativeClosure {
 	var once sync.Once
+	var memoErr value.Value
 
 	return NewNativeClosure(
 		func(vm *Thread, args []value.Value) (returnVal value.Value, err value.Value) {
 			once.Do(func() {
-				vm.CallCallable(fn)
+				_, memoErr = vm.CallCallable(fn)
 			})
 
+			if memoErr.IsNotUndefined() {
+				return value.Undefined, memoErr
+			}
 			return value.Nil, value.Undefined
 		},
 		0,
